@@ -1505,6 +1505,12 @@ class Authenticated(BaseClientHandler):
             )
             return
 
+        # If we selected the mailbox via 'examine' then we can not make any
+        # changes to it.
+        #
+        if self.examine:
+            raise No("Mailbox is read-only")
+
         # If this client has pending EXPUNGE messages then we return a
         # tagged No response.. the client should see this and do a NOOP or
         # such and receive the pending expunges.  Unless this is a UID
